@@ -160,12 +160,12 @@ def check_program(fst, pi, src, tier, res, rects=True):
             if (f.ln, f.col, f.end_ln, f.end_col) != want:
                 bad(ps + '/lncol', 'ln-col-accessors-differ', f'{cls}')
                 continue
-            if not isinstance(node, ast.stmt) and f.src != src[s:e] and id(node) not in in_ftstr:
+            if not isinstance(node, (ast.stmt, ast.excepthandler)) and f.src != src[s:e] and id(node) not in in_ftstr:
                 bad(ps + '/src', 'src-not-text-at-loc', f'{cls}: got={f.src!r} want={src[s:e]!r}')
                 continue
             res.nontriv(pi, ps, 'loc')
             # bloc
-            if isinstance(node, ast.stmt):
+            if isinstance(node, (ast.stmt, ast.excepthandler)):
                 bs, be = s, e
                 if hasattr(node, 'body') and not isinstance(node, ast.Module):  # block statement
                     decos = getattr(node, 'decorator_list', None)
